@@ -212,16 +212,46 @@ Theorem c14_negative_numprocs_refuted :
 Proof. exact negative_numprocs_accepted. Qed.
 Print Assumptions c14_negative_numprocs_refuted.
 
-Theorem c14_signal_constants_refuted :
-  conv_signal (GStr "0") = Ok 0 /\ conv_signal (GStr "_IGN") = Ok 1 /\ conv_signal (GStr "SIG_SETMASK") = Ok 2.
-Proof. exact signal_constants_accepted. Qed.
-Print Assumptions c14_signal_constants_refuted.
+(* ---- repaired in /repo (fix commits 89ee4dd, 2aace49, cffd68d): now ordinary theorems *)
 
-Theorem c14_env_separator_refuted :
-  dict_of_key_value_pairs "A==1" = Ok [("A", "=")] /\
-  dict_of_key_value_pairs "A=1;B=2" = Ok [("A", "1"); ("B", "2")].
-Proof. exact env_separator_unchecked. Qed.
-Print Assumptions c14_env_separator_refuted.
+(* an accepted stopsignal is one of the numbers datatypes.SIGNUMS holds (generated
+   by the source's filter); 0 and the SIG_* handler / sigmask constants are rejected *)
+Theorem c14_signal_is_signal :
+  forall v n, conv_signal v = Ok n -> In n signal_numbers.
+Proof. exact signal_accepted_is_signal. Qed.
+Print Assumptions c14_signal_is_signal.
+
+Theorem c14_signal_constants_rejected :
+  forallb rejected_as_signal
+          ["0"; "_IGN"; "_DFL"; "SIG_IGN"; "SIG_DFL"; "SIG_BLOCK"; "_UNBLOCK"; "sig_setmask"; "-1"; "65"] = true /\
+  conv_signal (GStr "TERM") = Ok 15 /\ conv_signal (GStr "1") = Ok 1 /\ conv_signal (GStr "sigusr2") = Ok 12.
+Proof. exact signal_constants_rejected. Qed.
+Print Assumptions c14_signal_constants_rejected.
+
+(* an accepted environment string is KEY = value triples separated by commas *)
+Theorem c14_env_separator_checked :
+  forall s r, dict_of_key_value_pairs s = Ok r -> exists toks, shlex s = Some toks /\ kv_shape toks.
+Proof. exact env_separator_checked. Qed.
+Print Assumptions c14_env_separator_checked.
+
+Theorem c14_env_separator_examples :
+  dict_of_key_value_pairs "A==1" = Err EEnvSyntax /\
+  dict_of_key_value_pairs "A=1;B=2" = Err EEnvSyntax /\
+  dict_of_key_value_pairs "A=1," = Ok [("A", "1")] /\
+  dict_of_key_value_pairs "A=1,B=""x,y""" = Ok [("A", "1"); ("B", "x,y")].
+Proof. exact env_separator_examples. Qed.
+Print Assumptions c14_env_separator_examples.
+
+(* an accepted loglevel is one of the generated level names *)
+Theorem c14_loglevel_is_level :
+  forall v n, conv_loglevel v = Ok n -> In (lower (py_str v), n) log_levels.
+Proof. exact loglevel_only_levels. Qed.
+Print Assumptions c14_loglevel_is_level.
+
+Theorem c14_loglevel_dunder_rejected :
+  conv_loglevel (GStr "__module__") = Err ELogLevel /\ conv_loglevel (GStr "__doc__") = Err ELogLevel.
+Proof. exact loglevel_dunder_rejected. Qed.
+Print Assumptions c14_loglevel_dunder_rejected.
 
 Theorem c14_name_characters_refuted :
   conv_name (GStr "") = Ok "" /\ conv_name (GStr "a[b") = Ok "a[b" /\ conv_name (GStr "a]b") = Ok "a]b".
